@@ -185,7 +185,12 @@ func caseSeedNfkd(o *vlib.Oracle, c *rec, cs Case) {
 	}
 	c.Hit("seed-passphrase-not-nfkd")
 	if !bytes.Equal(s, want) {
-		// known finding bip39-passphrase-not-nfkd
+		// known finding bip39-passphrase-not-nfkd — but ONLY the exact defect: the seed must be the one of the bytes as
+		// typed; any other wrong seed is a different failure and is reported under its own key
+		if !bytes.Equal(s, refSeed(m, pw)) {
+			c.PropFail("bip39-seed", fmt.Sprintf("seed %x.. is neither BIP39's (NFKD passphrase) %x.. nor PBKDF2 over the passphrase as typed %x..", s[:8], want[:8], refSeed(m, pw)[:8]), cs)
+			return
+		}
 		c.PropFail("bip39-passphrase-not-nfkd", fmt.Sprintf("bip39.NewSeed hashes the passphrase bytes as typed (%x) instead of their NFKD form (%x): the seed %x.. is not BIP39's %x.. - the same passphrase typed on a system that composes characters differently derives another wallet", pw, nf, s[:8], want[:8]), cs)
 	}
 }
